@@ -21,8 +21,21 @@ def cond(ss, s_si, raw, thr_si, kind):
     op = OPS[ss['op']]
     if raw is not None and raw[1] == ss['thr'][1]:
         return op(raw[0], ss['thr'][0])       # same unit: exact comparison
-    # different units: gearpy compares with an absolute 1e-12 band in the
-    # sensed value's unit; rounding of the conversion comes on top
+    # different units: gearpy converts the threshold to the unit of the
+    # sensed value and compares with an absolute band of 1e-12 in that unit
+    # ("operands denoting the same magnitude up to rounding compare equal")
+    if raw is not None and raw[1] in si.UNITS[kind]:
+        f = si.UNITS[kind][raw[1]]
+        diff = raw[0] - thr_si / f               # in the sensed value's unit
+        noise = 4e-16 * max(abs(raw[0]), abs(thr_si / f))
+        if abs(diff) + noise <= 1e-13:
+            # well inside the band, conversion rounding included: equal
+            return ss['op'] in ('ge', 'le', 'eq')
+        if abs(diff) - noise >= 1e-11:
+            if ss['op'] == 'eq':
+                return False
+            return op(diff, 0.0)
+        return None
     fac = max(si.UNITS[kind].values())
     band = 1e-9 * max(abs(s_si), abs(thr_si)) + 1e-11 * fac
     if abs(s_si - thr_si) <= band:
